@@ -1,5 +1,6 @@
 (* C17 (which variable is saved as the time variable): conventions/_base.py Convention.time_coordinate.
-   A variable is described by what the code looks at: its name, whether xarray decoded it to datetimes, whether
+   A variable is described by what the code looks at: its name, whether xarray decoded it to datetimes
+   (numpy datetime64, or cftime objects for dates outside its range), whether
    its encoding carries units of the form '... since ...', and the name its `bounds` attribute points to. *)
 From Coq Require Import ZArith List Bool.
 Import ListNotations.
